@@ -147,6 +147,13 @@ class Context:
                 return float(a)
             elif isinstance(to_type, ast.PointerType):
                 return int(a)
+            elif isinstance(to_type, ast.UnsignedIntegerType):
+                return int(a) & ((1 << to_type.bits) - 1)
+            elif isinstance(to_type, ast.SignedIntegerType):
+                value = int(a) & ((1 << to_type.bits) - 1)
+                if value >> (to_type.bits - 1):
+                    value -= 1 << to_type.bits
+                return value
             else:  # pragma: no cover
                 raise NotImplementedError(
                     f"Casting to {expr.to_type} not implemented"
